@@ -30,9 +30,29 @@ from mc import text_alphabet as TA
 from mc.models import text_spec as TS
 
 FULL = TA.option_points()
-# reduced product for the public entry points in the quick tier (64 points)
-ENTRY_Q = TA.option_points(strips=[(False, False), (True, True)],
-                           patterns=[None, [r'\d+']], mpcs=[0, 2])
+
+
+# reduced set for the public entry points in the quick tier: every option
+# point that sets at most two of the seven options (plus the one that sets
+# them all) - 1 + 7 + 21 + 1 = 30 points.  lstrip and rstrip are separate
+# options here, so an option handed to the wrong parameter is visible.
+def _entry_points_quick():
+    single = {'lstrip': True, 'rstrip': True, 'ignore_substrings': ['X'],
+              'ignore_patterns': [r'\d+'], 'remove_lines': ['b'],
+              'max_permutation_cases': 2, 'preprocess': 'drop_eacute'}
+    names = TA.OPTION_NAMES
+    out = [TA.option_point()]
+    for i in range(len(names)):
+        out.append(TA.option_point(**{names[i]: single[names[i]]}))
+    for i in range(len(names)):
+        for j in range(i + 1, len(names)):
+            out.append(TA.option_point(**{names[i]: single[names[i]],
+                                          names[j]: single[names[j]]}))
+    out.append(TA.option_point(**single))
+    return out
+
+
+ENTRY_Q = _entry_points_quick()
 # option points for the file-form layer: default + each option alone
 FORM_POINTS = [TA.option_point(),
                TA.option_point(rstrip=True),
@@ -61,8 +81,9 @@ class C04(Check):
     rule = ('case = one (actual, reference) pair of line sequences over the '
             '9-line alphabet (length <=2 quick, <=3 thorough; single lines '
             'over a 32-line alphabet), swept over all 512 option points; '
-            'entry-point cases = pairs over a 5-line alphabet x 64 option '
-            'points (thorough: a second 5-line alphabet, and all 512 points) '
+            'entry-point cases = pairs over a 5-line alphabet x the 30 option '
+            'points that set <= 2 (or all 7) options (thorough: a second '
+            '5-line alphabet, and all 512 points) '
             'x {string-vs-file, file-vs-file, '
             'list-of-files in both orders}, and file forms (final newline '
             'present/absent/doubled, CRLF, CR, non-ASCII, empty, missing '
@@ -84,6 +105,10 @@ class C04(Check):
         'its default except 3 patterns and 3 permutation limits',
     ]
 
+    def hashseeds(self, tier, verif_seed):
+        # nothing here depends on hash order; run under the requested seed
+        return [verif_seed % 3]
+
     # ------------------------------------------------------------- layers
     def layers(self, tier):
         L = [('identical', 'identical content under every option point '
@@ -94,10 +119,10 @@ class C04(Check):
              ('forms', 'file forms: final newline, CRLF, CR, empty, missing '
                        'reference')]
         if tier == 'thorough':
-            L += [('entry-full', 'public entry points under all 512 option '
-                                 'points'),
-                  ('seq3-short', 'length 3 against length <= 1'),
+            L += [('seq3-short', 'length 3 against length <= 1'),
                   ('seq3-2', 'length 3 against length 2'),
+                  ('entry-full', 'public entry points under all 512 option '
+                                 'points'),
                   ('seq3-3', 'length 3 against length 3')]
         return L
 
@@ -248,23 +273,47 @@ class C04(Check):
                      'model': m.verdict, 'model_basis': m.why,
                      'tdda': real if isinstance(real, str) else repr(real[1])}
 
+    CLAUSES = {'over-accept': 'unexcused-difference-must-fail',
+               'under-accept': 'agreement-modulo-exclusions-must-pass',
+               'internal-error': 'no-internal-error'}
+
     def report(self, R, a, e, points, bad, where):
         """bad: {index in points: kind}.  Reports the minimal points."""
+        if where != 'check_strings':
+            # Does check_strings show the same fault on the same content?
+            # If not, the wrapper (option forwarding) is at fault, not the
+            # comparison: one violation per kind, named after the entry
+            # point (the detail lists the options set at EVERY violating
+            # point of the case).
+            for kind in sorted(set(bad.values())):
+                idx = sorted(i for i in bad if bad[i] == kind)
+                if any(self.kind_at(a, e, points[i])[0] == kind
+                       for i in idx):
+                    continue
+                common = None
+                for i in idx:
+                    names = set(TA.option_label(points[i]).split('+'))
+                    common = names if common is None else common & names
+                first = min(idx, key=lambda i: (TA.n_set(points[i]), i))
+                R.viol('%s@%s' % (kind, where), self.CLAUSES[kind],
+                       {'entry': where, 'actual': a, 'reference': e,
+                        'options': dict((k, v)
+                                        for k, v in points[first].items()
+                                        if v != TA.DEFAULT_POINT[k]),
+                        'options_set_at_every_violating_point':
+                            sorted(common),
+                        'note': 'check_strings agrees with the model on '
+                                'this content; only the entry point differs',
+                        'other_option_points_in_this_case': len(idx) - 1},
+                       sub={'point': first, 'entry': where})
+                bad = dict((i, k) for i, k in bad.items() if k != kind)
         for i, kind in sorted(bad.items()):
             if any(j != i and bad[j] == kind
                    and TA.is_subpoint(points[j], points[i])
                    and points[j] != points[i] for j in bad):
                 continue
             sig, small = self.signature(kind, a, e, points[i])
-            clause = {'over-accept': 'unexcused-difference-must-fail',
-                      'under-accept': 'agreement-modulo-exclusions-must-pass',
-                      'internal-error': 'no-internal-error'}[kind]
-            if where != 'check_strings' and \
-                    self.kind_at(a, e, points[i])[0] != kind:
-                # the entry point disagrees with check_strings on the same
-                # content: the wrapper, not the comparison, is at fault
-                sig = '%s@%s' % (sig, where)
-            R.viol(sig, clause,
+            R.viol(sig, self.CLAUSES[kind],
                    {'entry': where, 'actual': a, 'reference': e,
                     'options': dict((k, v) for k, v in points[i].items()
                                     if v != TA.DEFAULT_POINT[k]),
